@@ -4,6 +4,7 @@ package main
 
 import (
 	"fmt"
+	"github.com/fatih/color"
 	"os"
 	"sort"
 
@@ -20,6 +21,7 @@ func register(id, level string, f checkFn) { checks[id] = f; levels[id] = level 
 const specDir = evid.Root + "/spec"
 
 func main() {
+	color.NoColor = true
 	if len(os.Args) < 2 {
 		ids := []string{}
 		for k := range checks {
